@@ -1,0 +1,69 @@
+//go:build verif
+// +build verif
+
+// Machine-checked contracts for this package (checked by /verif/govc). Comment-only.
+
+package cluster
+
+//@ import util "github.com/ovrclk/akash/provider/cluster/util"
+//@ import mtypes "github.com/ovrclk/akash/x/market/types"
+
+// ---- C14: deployment manager event loop -----------------------------------------
+// a teardown request has been received by this manager
+//@ ghost TdReq: bool
+
+// worker goroutine wrapper: exactly one result will be delivered on the returned channel (A-CHAN)
+//@ func (*deploymentManager).do
+//@   trusted
+//@   modifies ghost ChanKind, ghost ChanPending, ghost InFlight
+//@   ensures result != nil && fresh(result) && ChanKind[result] == 1 && ChanPending[result] && InFlight == old(InFlight) + 1
+//@   ensures forall c: ref :: c != result ==> ChanKind[c] == old(ChanKind)[c] && ChanPending[c] == old(ChanPending)[c]
+//@ func (*deploymentManager).stopMonitor
+//@   trusted
+//@ func (*deploymentManager).startMonitor
+//@   trusted
+//@   modifies dm.monitor
+//@ func (*deploymentManager).startWithdrawal
+//@   trusted
+//@   modifies dm.withdrawal
+//@ extern util.AllHostnamesOfManifestGroup(mgroup)
+//@   pure
+//@ extern mtypes.(LeaseID).DeploymentID(id)
+//@   pure
+//@ extern cluster.(HostnameServiceClient).ReserveHostnames(recv, hostnames, did)
+//@   pure
+//@   ensures result != nil && ChanKind[result] == 0
+//@ extern cluster.(HostnameServiceClient).ReleaseHostnames(recv, hostnames)
+//@   pure
+//@ import cluster "github.com/ovrclk/akash/provider/cluster"
+
+// a cluster operation is started only when none is running, and a deploy never after a teardown request
+//@ func (*deploymentManager).startDeploy
+//@   requires [serial] InFlight == 0
+//@   requires [notd] !TdReq
+//@   modifies dm.state, ghost ChanKind, ghost ChanPending, ghost InFlight
+//@   ensures dm.state == dsDeployActive && result != nil && fresh(result) && ChanKind[result] == 1 && ChanPending[result] && InFlight == 1
+//@   ensures forall c: ref :: c != result ==> ChanKind[c] == old(ChanKind)[c] && ChanPending[c] == old(ChanPending)[c]
+//@ func (*deploymentManager).startTeardown
+//@   requires [serial] InFlight == 0
+//@   modifies dm.state, ghost ChanKind, ghost ChanPending, ghost InFlight
+//@   ensures dm.state == dsTeardownActive && result != nil && fresh(result) && ChanKind[result] == 1 && ChanPending[result] && InFlight == 1
+//@   ensures forall c: ref :: c != result ==> ChanKind[c] == old(ChanKind)[c] && ChanPending[c] == old(ChanPending)[c]
+
+//@ func (*deploymentManager).run
+//@   nopanic explicit
+//@   requires InFlight == 0 && !TdReq && dm.state == dsDeployActive && dm.mgroup != nil
+//@   requires dm.updatech != nil && dm.teardownch != nil && ChanKind[dm.updatech] == 0 && ChanKind[dm.teardownch] == 0
+//@   modifies dm.state, dm.mgroup, dm.monitor, dm.withdrawal, ghost ChanKind, ghost ChanPending, ghost InFlight, ghost TdReq
+//@   select 1 case 4 ghost TdReq := true
+//@   loop 1 invariant InFlight == ite(runch != nil, 1, 0)
+//@   loop 1 invariant runch != nil ==> ChanKind[runch] == 1 && ChanPending[runch]
+//@   loop 1 invariant reserveHostnamesCh != nil ==> runch == nil && ChanKind[reserveHostnamesCh] == 0
+//@                      && (dm.state == dsDeployActive || dm.state == dsDeployPending || dm.state == dsTeardownPending)
+//@   loop 1 invariant TdReq ==> (dm.state == dsTeardownPending || dm.state == dsTeardownActive || dm.state == dsTeardownComplete)
+//@   loop 1 invariant (dm.state == dsDeployComplete || dm.state == dsTeardownComplete) ==> runch == nil
+//@   loop 1 invariant reserveHostnamesCh == nil && (dm.state == dsDeployActive || dm.state == dsDeployPending || dm.state == dsTeardownPending || dm.state == dsTeardownActive) ==> runch != nil
+//@   loop 1 invariant dm.state == dsDeployActive || dm.state == dsDeployPending || dm.state == dsDeployComplete || dm.state == dsTeardownActive || dm.state == dsTeardownPending || dm.state == dsTeardownComplete
+//@   loop 1 invariant dm.updatech != nil && dm.teardownch != nil && ChanKind[dm.updatech] == 0 && ChanKind[dm.teardownch] == 0
+
+//@ property C14 := (*deploymentManager).run#*, (*deploymentManager).startDeploy#*, (*deploymentManager).startTeardown#*
